@@ -13,6 +13,8 @@ import LdkModel.Generated.OnionPayloads
      failwrapx <ss> <packet> <attr|none> <hold>      → <packet> <attribution data|none> wire=<update_fail_htlc wire length>
                                                        (GENERATED relayFailurePacket: process_failure_packet + crypt_failure_packet)
      faildecodex <n> <ss>* <packet> <attr|none>      → attributed k code data holds=…
+     fulfilwrapx <ss> <attr|none> <hold>             → <attribution data>   (GENERATED processFulfillAttributionData)
+     fulfildecodex <n> <ss>* <attr>                  → holds=…              (GENERATED decodeFulfillAttributionData)
      failchainx <n> <ss>* <k> <code> <dlen> <seed> <attr|legacy> <hold_k>,…,<hold_0>
          the whole way back of a failure of `dlen` data bytes (byte i = seed + 7·i mod 256) from hop k, built with
          (`attr`) or without (`legacy`: a failing node that does not support attribution data) attribution data,
@@ -182,7 +184,7 @@ def c14 : Drv where
       let hs := if holds.isEmpty then "none" else ",".intercalate (holds.map toString)
       ((), s!"{showFail r} holds={hs}")
     | ["fulfilwrapx", ss, attr, hold] =>
-      let a := fulfillAttr ldk (failKeysXOfSecret (unhex ss)) (attrOf attr) (nat! hold)
+      let a := processFulfillAttributionData ldk (failKeysXOfSecret (unhex ss)) (attrOf attr) (nat! hold)
       ((), hex (a.holdTimes ++ a.hmacs))
     | "fulfildecodex" :: n :: rest =>
       if rest.length ≠ nat! n + 1 then ((), "bad-op") else
@@ -190,7 +192,7 @@ def c14 : Drv where
       match attrOf (rest.getD (nat! n) "none") with
       | none => ((), "bad-op")
       | some a =>
-        let holds := decodeFulfillAttr ldk keys a
+        let holds := decodeFulfillAttributionData ldk keys a
         ((), "holds=" ++ (if holds.isEmpty then "none" else ",".intercalate (holds.map toString)))
     | "payload" :: variant :: nf :: rest =>
       let nf := nat! nf
